@@ -9,12 +9,17 @@ Proof. induction l as [|y l IH]; intros [|n] x H; cbn in *; try lia; auto. apply
 Lemma nth_upd_other {A} (l : list A) : forall n m x, n <> m -> nth_error (upd n x l) m = nth_error l m.
 Proof. induction l as [|y l IH]; intros [|n] [|m] x H; cbn; auto; try congruence. Qed.
 
+(* a snapshot taken at epoch e with table length n: s was not among the first n texts; nothing was replaced since iff
+   the epoch is still e, and then the table still has length n *)
+Definition snap_ok (st : state) (s : text) (e n : nat) : Prop :=
+  (e <= epoch st)%nat /\ (n <= length (table st))%nat /\ ~ In s (firstn n (table st)) /\ (e = epoch st -> n = length (table st)).
+
 Definition thread_ok (st : state) (t : nat) (th : thread) : Prop :=
   (forall s i, In (s, i) (finished th) -> nth_error (table st) i = Some s) /\
   match tpc th with
   | Idle => lock st <> Some t
-  | WantLock s e => lock st <> Some t /\ (e <= length (table st))%nat /\ ~ In s (firstn e (table st))
-  | Locked s e => lock st = Some t /\ (e <= length (table st))%nat /\ ~ In s (firstn e (table st))
+  | WantLock s e n => lock st <> Some t /\ snap_ok st s e n
+  | Locked s e n => lock st = Some t /\ snap_ok st s e n
   | Checked s => lock st = Some t /\ ~ In s (table st)
   end.
 
@@ -23,7 +28,7 @@ Definition Inv (st : state) : Prop :=
 
 (* no other thread is inside the critical section while t holds the lock *)
 Lemma others_outside st t u thu : Inv st -> lock st = Some t -> u <> t -> nth_error (threads st) u = Some thu ->
-  match tpc thu with Idle | WantLock _ _ => True | _ => False end.
+  match tpc thu with Idle | WantLock _ _ _ => True | _ => False end.
 Proof.
   intros [_ H] Hl Hu Hn. specialize (H u thu Hn). destruct H as [_ H].
   destruct (tpc thu); auto; destruct H as [H _]; congruence.
@@ -32,73 +37,93 @@ Qed.
 Lemma firstn_app_le' {A} (n : nat) (a b : list A) : (n <= length a)%nat -> firstn n (a ++ b) = firstn n a.
 Proof. intros H. rewrite firstn_app. replace (n - length a)%nat with 0%nat by lia. cbn. apply app_nil_r. Qed.
 
-Lemma step_inv st t : Inv st -> Inv (step st t).
+Lemma snap_ok_same_tables st st' s e n : table st' = table st -> epoch st' = epoch st -> snap_ok st s e n -> snap_ok st' s e n.
+Proof. unfold snap_ok. intros -> ->. auto. Qed.
+
+Lemma step_inv bf st t : Inv st -> Inv (step bf st t).
 Proof.
   intros HI. pose proof HI as [Hnd Hth]. unfold step, step_gen.
   destruct (nth_error (threads st) t) as [th|] eqn:Et; [|exact HI].
   assert (Hlen : (t < length (threads st))%nat) by (apply nth_error_Some; congruence).
   pose proof (Hth t th Et) as [Hfin Hpc].
   (* a generic way to re-establish the invariant after updating thread t only *)
-  assert (Hgen : forall th' tbl lk,
+  assert (Hgen : forall th' tbl ep lk,
             NoDup tbl ->
-            thread_ok {| table := tbl; lock := lk; threads := upd t th' (threads st) |} t th' ->
+            thread_ok {| table := tbl; epoch := ep; lock := lk; threads := upd t th' (threads st) |} t th' ->
             (forall u thu, u <> t -> nth_error (threads st) u = Some thu ->
-                           thread_ok {| table := tbl; lock := lk; threads := upd t th' (threads st) |} u thu) ->
-            Inv (set_thread st t th' tbl lk)).
-  { intros th' tbl lk Hn Hme Hoth. split; [exact Hn|]. intros u thu Hu. cbn [threads set_thread] in Hu.
+                           thread_ok {| table := tbl; epoch := ep; lock := lk; threads := upd t th' (threads st) |} u thu) ->
+            Inv (set_thread st t th' tbl ep lk)).
+  { intros th' tbl ep lk Hn Hme Hoth. split; [exact Hn|]. intros u thu Hu. cbn [threads set_thread] in Hu.
     destruct (Nat.eq_dec u t) as [->|Hne].
     - rewrite nth_upd_same in Hu by auto. inversion Hu; subst. exact Hme.
     - rewrite nth_upd_other in Hu by auto. apply Hoth; auto. }
-  destruct (tpc th) as [|s e|s e|s] eqn:Epc.
+  (* other threads are untouched when neither the table nor the epoch nor the lock changes *)
+  assert (Hsame : forall th' u thu, u <> t -> nth_error (threads st) u = Some thu ->
+            thread_ok {| table := table st; epoch := epoch st; lock := lock st; threads := upd t th' (threads st) |} u thu).
+  { intros th' u thu Hne Hu. pose proof (Hth u thu Hu) as [F P]. split; cbn [table lock]; auto. }
+  destruct (tpc th) as [|s e n|s e n|s] eqn:Epc.
   - (* Idle *)
     destruct (todo th) as [|s r] eqn:Etodo; [exact HI|].
     destruct (lookup (table st) s 0) as [i|] eqn:L.
     + apply Hgen; auto.
-      * split; cbn [finished tpc table lock]; auto. intros s' i' [E|E]; [inversion E; subst|auto].
-        apply lookup_some in L. rewrite Nat.sub_0_r in L. tauto.
-      * intros u thu Hne Hu. exact (Hth u thu Hu).
+      split; cbn [finished tpc table lock]; auto. intros s' i' [E|E]; [inversion E; subst|auto].
+      apply lookup_some in L. rewrite Nat.sub_0_r in L. tauto.
     + apply Hgen; auto.
-      * split; cbn [finished tpc table lock]; auto. repeat split; auto.
-        rewrite firstn_all. eapply lookup_none; eauto.
-      * intros u thu Hne Hu. exact (Hth u thu Hu).
+      split; cbn [finished tpc table lock]; auto. split; auto.
+      unfold snap_ok; cbn [table epoch]. repeat split; auto.
+      rewrite firstn_all. eapply lookup_none; eauto.
   - (* WantLock *)
-    destruct Hpc as (Hl & He & Hs). destruct (lock st) as [o|] eqn:El; [exact HI|].
+    destruct Hpc as (Hl & Hs). destruct (lock st) as [o|] eqn:El; [exact HI|].
     apply Hgen; auto.
     + split; cbn [finished tpc table lock]; auto.
     + intros u thu Hne Hu. pose proof (Hth u thu Hu) as [F P]. split; cbn [table lock]; auto.
-      destruct (tpc thu); cbn [table lock] in *; try (destruct P as [P _]; congruence).
+      destruct (tpc thu); cbn [table epoch lock] in *.
       * congruence.
-      * destruct P as (_ & P2 & P3). repeat split; auto. congruence.
+      * destruct P as [_ P2]. split; [congruence | eapply snap_ok_same_tables; eauto].
+      * destruct P as [P1 _]. congruence.
+      * destruct P as [P1 _]. congruence.
   - (* Locked *)
-    destruct Hpc as (Hl & He & Hs). cbn [negb orb].
-    destruct (Nat.eqb_spec e (length (table st))) as [Ee|Ee].
+    destruct Hpc as (Hl & He & Hn & Hs & Heq). cbn [negb orb].
+    destruct (Nat.eqb_spec e (epoch st)) as [Ee|Ee].
     + apply Hgen; auto.
-      * split; cbn [finished tpc table lock]; auto. split; auto. subst e. rewrite firstn_all in Hs. exact Hs.
-      * intros u thu Hne Hu. exact (Hth u thu Hu).
+      split; cbn [finished tpc table lock]; auto. split; auto.
+      rewrite (Heq Ee), firstn_all in Hs. exact Hs.
     + apply Hgen; auto.
       * split; cbn [finished tpc table lock]; auto. congruence.
       * intros u thu Hne Hu. pose proof (others_outside st t u thu HI Hl Hne Hu) as Ho.
         pose proof (Hth u thu Hu) as [F P]. split; cbn [table lock]; auto.
-        destruct (tpc thu); try contradiction; cbn [table lock] in *; [congruence|].
-        destruct P as (_ & P2 & P3). repeat split; auto. congruence.
-  - (* Checked: insert *)
+        destruct (tpc thu); try contradiction; cbn [table epoch lock] in *; [congruence|].
+        destruct P as [_ P2]. split; [congruence | eapply snap_ok_same_tables; eauto].
+  - (* Checked: grow the block, or insert *)
     destruct Hpc as (Hl & Hs).
-    apply Hgen.
-    + apply nodup_snoc; auto.
-    + split; cbn [finished tpc table lock]; [|congruence].
-      intros s' i' [E|E].
-      * inversion E; subst. rewrite nth_error_app2 by lia. rewrite Nat.sub_diag. reflexivity.
-      * rewrite nth_error_app1; [auto|]. apply nth_error_Some. rewrite (Hfin _ _ E). congruence.
-    + intros u thu Hne Hu. pose proof (others_outside st t u thu HI Hl Hne Hu) as Ho.
-      pose proof (Hth u thu Hu) as [F P]. split; cbn [table lock].
-      * intros s' i' E. rewrite nth_error_app1; [auto|]. apply nth_error_Some. rewrite (F _ _ E). congruence.
-      * destruct (tpc thu); try contradiction; cbn [table lock] in *; [congruence|].
-        destruct P as (_ & P2 & P3). repeat split; try congruence.
-        -- rewrite app_length. lia.
-        -- rewrite firstn_app_le' by auto. exact P3.
+    destruct (bf (epoch st)).
+    + (* growth: same texts, new epoch, lock kept *)
+      apply Hgen; auto.
+      * split; [exact Hfin|]. rewrite Epc. cbn [table lock]. auto.
+      * intros u thu Hne Hu. pose proof (others_outside st t u thu HI Hl Hne Hu) as Ho.
+        pose proof (Hth u thu Hu) as [F P]. split; cbn [table lock]; auto.
+        destruct (tpc thu); try contradiction; cbn [table epoch lock] in *; [congruence|].
+        destruct P as [P1 (A & B & C & D)]. split; auto. unfold snap_ok; cbn [table epoch].
+        repeat split; auto; lia.
+    + apply Hgen.
+      * apply nodup_snoc; auto.
+      * split; cbn [finished tpc table lock]; [|congruence].
+        intros s' i' [E|E].
+        -- inversion E; subst. rewrite nth_error_app2 by lia. rewrite Nat.sub_diag. reflexivity.
+        -- rewrite nth_error_app1; [auto|]. apply nth_error_Some. rewrite (Hfin _ _ E). congruence.
+      * intros u thu Hne Hu. pose proof (others_outside st t u thu HI Hl Hne Hu) as Ho.
+        pose proof (Hth u thu Hu) as [F P]. split; cbn [table lock].
+        -- intros s' i' E. rewrite nth_error_app1; [auto|]. apply nth_error_Some. rewrite (F _ _ E). congruence.
+        -- destruct (tpc thu); try contradiction; cbn [table epoch lock] in *; [congruence|].
+           destruct P as [P1 (A & B & C & D)]. split; [congruence|]. unfold snap_ok; cbn [table epoch].
+           repeat split.
+           ++ lia.
+           ++ rewrite app_length. lia.
+           ++ rewrite firstn_app_le' by auto. exact C.
+           ++ lia.
 Qed.
 
-Lemma run_inv sched : forall st, Inv st -> Inv (run st sched).
+Lemma run_inv bf sched : forall st, Inv st -> Inv (run bf st sched).
 Proof. induction sched as [|t r IH]; intros st H; cbn [run fold_left]; auto. apply IH. apply step_inv. exact H. Qed.
 
 Lemma init_inv tbl work : NoDup tbl -> Inv (init tbl work).
@@ -115,29 +140,29 @@ Proof.
 Qed.
 
 (* the three facts the property needs, for every schedule *)
-Theorem table_injective_proof tbl work sched : NoDup tbl -> NoDup (table (run (init tbl work) sched)).
-Proof. intros H. apply (run_inv sched (init tbl work) (init_inv tbl work H)). Qed.
+Theorem table_injective_proof bf tbl work sched : NoDup tbl -> NoDup (table (run bf (init tbl work) sched)).
+Proof. intros H. apply (run_inv bf sched (init tbl work) (init_inv tbl work H)). Qed.
 
-Theorem returned_atom_in_table_proof tbl work sched s i : NoDup tbl ->
-  In (s, i) (results (run (init tbl work) sched)) -> nth_error (table (run (init tbl work) sched)) i = Some s.
+Theorem returned_atom_in_table_proof bf tbl work sched s i : NoDup tbl ->
+  In (s, i) (results (run bf (init tbl work) sched)) -> nth_error (table (run bf (init tbl work) sched)) i = Some s.
 Proof.
-  intros H Hin. destruct (run_inv sched _ (init_inv tbl work H)) as [_ Hth].
+  intros H Hin. destruct (run_inv bf sched _ (init_inv tbl work H)) as [_ Hth].
   apply in_results in Hin. destruct Hin as (t & th & Ht & Hf). exact (proj1 (Hth t th Ht) s i Hf).
 Qed.
 
-Theorem same_text_same_atom_proof tbl work sched s i j : NoDup tbl ->
-  In (s, i) (results (run (init tbl work) sched)) -> In (s, j) (results (run (init tbl work) sched)) -> i = j.
+Theorem same_text_same_atom_proof bf tbl work sched s i j : NoDup tbl ->
+  In (s, i) (results (run bf (init tbl work) sched)) -> In (s, j) (results (run bf (init tbl work) sched)) -> i = j.
 Proof.
   intros H Hi Hj.
-  pose proof (returned_atom_in_table_proof tbl work sched s i H Hi) as Ei.
-  pose proof (returned_atom_in_table_proof tbl work sched s j H Hj) as Ej.
-  exact (nodup_nth_inj _ _ _ s (table_injective_proof tbl work sched H) Ei Ej).
+  pose proof (returned_atom_in_table_proof bf tbl work sched s i H Hi) as Ei.
+  pose proof (returned_atom_in_table_proof bf tbl work sched s j H Hj) as Ej.
+  exact (nodup_nth_inj _ _ _ s (table_injective_proof bf tbl work sched H) Ei Ej).
 Qed.
 
-Theorem same_atom_same_text_proof tbl work sched s1 s2 i : NoDup tbl ->
-  In (s1, i) (results (run (init tbl work) sched)) -> In (s2, i) (results (run (init tbl work) sched)) -> s1 = s2.
+Theorem same_atom_same_text_proof bf tbl work sched s1 s2 i : NoDup tbl ->
+  In (s1, i) (results (run bf (init tbl work) sched)) -> In (s2, i) (results (run bf (init tbl work) sched)) -> s1 = s2.
 Proof.
   intros H H1 H2.
-  pose proof (returned_atom_in_table_proof tbl work sched s1 i H H1).
-  pose proof (returned_atom_in_table_proof tbl work sched s2 i H H2). congruence.
+  pose proof (returned_atom_in_table_proof bf tbl work sched s1 i H H1).
+  pose proof (returned_atom_in_table_proof bf tbl work sched s2 i H H2). congruence.
 Qed.
